@@ -1,0 +1,152 @@
+//go:build verif
+
+package reconciler
+
+import (
+	"context"
+	"reflect"
+	"time"
+
+	"github.com/go-logr/logr"
+	k8sworkqueue "k8s.io/client-go/util/workqueue"
+	"k8s.io/utils/clock"
+	"sigs.k8s.io/controller-runtime/pkg/client"
+	"sigs.k8s.io/controller-runtime/pkg/event"
+
+	"github.com/jcmoraisjr/haproxy-ingress/pkg/controller/config"
+	"github.com/jcmoraisjr/haproxy-ingress/pkg/utils/workqueue"
+)
+
+// VerifWhen lets the caller see every consultation of the reconciler's rate limiter:
+// inner is the real IngressReconcilerRateLimiter.When for the item.
+type VerifWhen func(fullsync bool, inner func() time.Duration) time.Duration
+
+type verifLimiter struct {
+	inner k8sworkqueue.TypedRateLimiter[rparam]
+	when  VerifWhen
+}
+
+func (l *verifLimiter) When(item rparam) time.Duration {
+	if l.when == nil {
+		return l.inner.When(item)
+	}
+	return l.when(item.fullsync, func() time.Duration { return l.inner.When(item) })
+}
+func (l *verifLimiter) Forget(item rparam)          { l.inner.Forget(item) }
+func (l *verifLimiter) NumRequeues(item rparam) int { return l.inner.NumRequeues(item) }
+
+// VerifReconcilerQueue is an IngressReconciler with its watchers, its rate limiter and its
+// queue, built with the same constructors SetupWithManager uses (NewQueue and RateLimiter
+// of the controller options), on the given clock and without a manager: the caller plays the
+// worker of controller-runtime.
+type VerifReconcilerQueue struct {
+	r       *IngressReconciler
+	vw      *VerifWatchers
+	limiter k8sworkqueue.TypedRateLimiter[rparam]
+}
+
+// VerifNewReconcilerQueue builds it. Services is left nil: only the producers of
+// reconciliation requests and the queue are exercised, not Reconcile's conversion.
+func VerifNewReconcilerQueue(ctx context.Context, cfg *config.Config, vw *VerifWatchers, clk clock.WithTicker, when VerifWhen) *VerifReconcilerQueue {
+	r := &IngressReconciler{
+		Config:   cfg,
+		log:      logr.Discard(),
+		watchers: vw.w,
+	}
+	limiter := workqueue.IngressReconcilerRateLimiter[rparam](r.Config.RateLimitUpdate, r.Config.WaitBeforeUpdate)
+	r.queue = k8sworkqueue.NewTypedRateLimitingQueueWithConfig[rparam](&verifLimiter{inner: limiter, when: when}, k8sworkqueue.TypedRateLimitingQueueConfig[rparam]{
+		Name:  "ingress",
+		Clock: clk,
+	})
+	return &VerifReconcilerQueue{r: r, vw: vw, limiter: limiter}
+}
+
+// Limiter is the real rate limiter (for workqueue.VerifLimiterLast / VerifLimiterSetLast).
+func (v *VerifReconcilerQueue) Limiter() any { return v.limiter }
+
+func (v *VerifReconcilerQueue) match(obj client.Object) []*hdlr {
+	var out []*hdlr
+	for _, h := range v.vw.handlers {
+		if reflect.TypeOf(h.typ) == reflect.TypeOf(obj) {
+			out = append(out, h)
+		}
+	}
+	return out
+}
+
+// Fire delivers an event (op = create, update, delete, generic) to the handlers of the
+// object's type the way VerifWatchers does, but with the reconciler's real queue; it
+// returns how many handlers accepted it.
+func (v *VerifReconcilerQueue) Fire(op string, old, obj client.Object) (accepted int) {
+	ctx := context.Background()
+	for _, h := range v.match(obj) {
+		ok := true
+		for _, p := range h.pr {
+			switch op {
+			case "create":
+				ok = ok && p.Create(event.CreateEvent{Object: obj})
+			case "update":
+				ok = ok && p.Update(event.UpdateEvent{ObjectOld: old, ObjectNew: obj})
+			case "delete":
+				ok = ok && p.Delete(event.DeleteEvent{Object: obj})
+			case "generic":
+				ok = ok && p.Generic(event.GenericEvent{Object: obj})
+			}
+		}
+		if !ok {
+			continue
+		}
+		switch op {
+		case "create":
+			h.Create(ctx, event.TypedCreateEvent[client.Object]{Object: obj}, v.r.queue)
+		case "update":
+			h.Update(ctx, event.TypedUpdateEvent[client.Object]{ObjectOld: old, ObjectNew: obj}, v.r.queue)
+		case "delete":
+			h.Delete(ctx, event.TypedDeleteEvent[client.Object]{Object: obj}, v.r.queue)
+		case "generic":
+			h.Generic(ctx, event.TypedGenericEvent[client.Object]{Object: obj}, v.r.queue)
+		}
+		accepted++
+	}
+	return accepted
+}
+
+// LeaderChanged is the subscriber SetupWithManager registers in Services.
+func (v *VerifReconcilerQueue) LeaderChanged(isLeader bool) {
+	v.r.leaderChanged(context.Background(), isLeader)
+}
+
+// Running tells whether a first reconciliation took its batch already.
+func (v *VerifReconcilerQueue) Running() bool { return v.r.watchers.running() }
+
+// Len is the number of items ready for the worker.
+func (v *VerifReconcilerQueue) Len() int { return v.r.queue.Len() }
+
+// Get is the worker taking the next item; Reconcile starts by taking the batch of changes.
+func (v *VerifReconcilerQueue) Get() (fullsync bool, shutdown bool) {
+	item, shutdown := v.r.queue.Get()
+	if !shutdown {
+		_ = v.r.watchers.getChangedObjects()
+	}
+	return item.fullsync, shutdown
+}
+
+// Finish is what controller-runtime's reconcileHandler does with the outcome of
+// Reconcile(item): an error re-queues rate limited, RequeueAfter forgets and adds after the
+// given time, success forgets; then Done.
+func (v *VerifReconcilerQueue) Finish(fullsync bool, requeueAfter time.Duration, err error) {
+	item := rparam{fullsync: fullsync}
+	switch {
+	case err != nil:
+		v.r.queue.AddRateLimited(item)
+	case requeueAfter > 0:
+		v.r.queue.Forget(item)
+		v.r.queue.AddAfter(item, requeueAfter)
+	default:
+		v.r.queue.Forget(item)
+	}
+	v.r.queue.Done(item)
+}
+
+// ShutDown stops the queue.
+func (v *VerifReconcilerQueue) ShutDown() { v.r.queue.ShutDown() }
